@@ -413,6 +413,9 @@ class ExprMixin:
                 return z3.And(jv_is_str(j.t), jv_str(j.t) == o.t)
         return z3.BoolVal(False)
 
+    def under_construction(self, obj, st):
+        return any(obj.t.eq(r) for r in st.ghost.get("__constructing__", ()))
+
     def _inner(self, v):
         if v.ty.name != "Opt":
             return v
@@ -433,6 +436,8 @@ class ExprMixin:
             if cd and cd.get("record") and item.ty == STR and z3.is_string_value(item.t):
                 k = item.t.as_string()
                 if k in cd["fields"]:
+                    if not self.under_construction(container, st):
+                        return z3.BoolVal(True)      # class invariant of record classes (C13)
                     return st.read(f"{ty.args[0]}.{k}!has", B, container.t)
                 return z3.BoolVal(False)
             r = self.call_method_if_defined(container, "__contains__", [item], st)
@@ -505,6 +510,8 @@ class ExprMixin:
             if ta == INT and tb == INT:
                 st.raise_if(b.t == 0, "ZeroDivisionError")
                 return Val(INT, a.t % b.t) if _is_pos_const(b.t) else Val(INT, self.py_mod(a.t, b.t))
+            if ta == TD and tb == TD and _is_pos_const(z3.simplify(b.t)):
+                return Val(TD, a.t % z3.simplify(b.t))
         if isinstance(op, ast.FloorDiv):
             if ta == INT and tb == INT:
                 st.raise_if(b.t == 0, "ZeroDivisionError")
@@ -676,7 +683,10 @@ class ExprMixin:
             if cd and cd.get("record") and idx.ty == STR and z3.is_string_value(idx.t):
                 k = idx.t.as_string()
                 if k in cd["fields"]:
-                    st.raise_if(z3.Not(st.read(f"{obj.ty.args[0]}.{k}!has", B, obj.t)), "KeyError", line)
+                    if self.under_construction(obj, st):
+                        has = st.read(f"{obj.ty.args[0]}.{k}!has", B, obj.t)
+                        st.raise_if(z3.Not(has), "KeyError", line)
+                    # else: class invariant of record classes (established by __init__, C13): keys are present
                     fty = parse_type(cd["fields"][k])
                     return from_sort_term(st.read(f"{obj.ty.args[0]}.{k}", sort_of(fty), obj.t), fty)
             r = self.call_method_if_defined(obj, "__getitem__", [idx], st)
@@ -684,6 +694,12 @@ class ExprMixin:
                 return r
         if n == "JV":
             return self.jv_index(obj, idx, st, line)
+        if n == "IntMap":
+            return Val(INT, z3.Select(obj.t, idx.t))
+        if n == "IntMap2":
+            return Val(Ty("IntMap2Row"), (obj.t, idx.t))
+        if n == "IntMap2Row":
+            return Val(INT, z3.Select(obj.t[0], obj.t[1], idx.t))
         raise Unsupported(f"subscript of {obj.ty}")
 
     def tuple_index(self, obj, idx, st, line):
@@ -731,9 +747,15 @@ class ExprMixin:
         s.spec = True
         s.guards = []
         s.old = old if old is not None else st.old
-        s.frame = getattr(self, "spec_frame", None) or st.frame
+        s.frame = self.get_spec_frame() or st.frame
         v = self.eval(node, s)
         return self.truth(v, s)
+
+    def get_spec_frame(self):
+        sf = getattr(self, "spec_frame", None)
+        if sf is None and getattr(self, "spec_modules", None):
+            sf = self.spec_frame = _ModFrame(self.spec_modules[-1])
+        return sf
 
     def spec_val(self, text, env, st, old=None):
         node = ast.parse(text, mode="eval").body if isinstance(text, str) else text
@@ -742,7 +764,7 @@ class ExprMixin:
         s.spec = True
         s.guards = []
         s.old = old if old is not None else st.old
-        s.frame = getattr(self, "spec_frame", None) or st.frame
+        s.frame = self.get_spec_frame() or st.frame
         return self.eval(node, s)
 
 
